@@ -236,6 +236,25 @@ func DiffExternal(got, want map[string]interface{}) []string {
 		if emptyish(gv) && emptyish(wv) {
 			continue
 		}
+		if k == "@context" {
+			// stated: the context of every key type used is included (and, in base mode, the @base entry that the
+			// relative ids need); order and further contexts are left open
+			gl, _ := gv.([]interface{})
+			wl, _ := wv.([]interface{})
+			for _, we := range wl {
+				found := false
+				for _, ge := range gl {
+					if reflect.DeepEqual(ge, we) {
+						found = true
+					}
+				}
+				if !found {
+					out = append(out, k)
+					break
+				}
+			}
+			continue
+		}
 		if !reflect.DeepEqual(gv, wv) {
 			out = append(out, k)
 		}
